@@ -1,6 +1,6 @@
 (* Props/C16.v -- the property theorems of C16, and nothing else.  Each is closed by [exact] of a
    lemma proved in C16/, its statement is pinned by [Check], and [Print Assumptions] follows. *)
-From C16 Require Import Casm Vm Roundtrip Denote Step Run Fresh Commit.
+From C16 Require Import Casm Vm Roundtrip Denote Step Run Fresh Commit Layout.
 
 (* Every instruction the toolchain can assemble (every operand shape, register, offsets in the
    full i16 range, arbitrary immediate, with or without ap++) encodes to words that cairo-vm's
@@ -63,6 +63,25 @@ Theorem C16_run_sound : forall finv,
   denotes i mf sk sk'.
 Proof. exact run_sound. Qed.
 
+(* Whole programs.  [prog_words is] is the bytecode of an instruction list (concatenated encodings,
+   as CairoProgram::assemble builds it), [mem_has m seg off ws] says the loader stored word k as a
+   field element at (seg, off + k), [prog_offset is j] is the sum of op_size of the first j
+   instructions -- the offsets relocations are computed from.  Every step of any execution that
+   starts at the offset of the j-th instruction does what that instruction denotes. *)
+Theorem C16_program_run_sound : forall finv,
+  (forall z z0, 0 <= z < P -> 0 <= z0 < P -> z0 <> 0 ->
+     fmul (fmul z (finv z0)) z0 = z /\ fmul z0 (fmul z (finv z0)) = z) ->
+  forall is ws m seg off n s mf tr k sk sk' j i,
+  Forall (fun i => wf_instr i /\ stone i) is ->
+  prog_words is = Some ws -> mem_has m seg off ws ->
+  0 <= off -> off + Z.of_nat (length ws) <= USZ ->
+  canonical m ->
+  vm_trace finv n m s = Some (mf, tr) ->
+  nth_error (s :: tr) k = Some sk -> nth_error tr k = Some sk' ->
+  nth_error is j = Some i -> pc sk = (seg, off + prog_offset is j) ->
+  denotes i mf sk sk'.
+Proof. exact program_run_sound. Qed.
+
 (* every cell a step writes was unknown before the step, for every flag combination [r] (assembled
    or not) and every machine state: the modelled VM never overwrites *)
 Theorem C16_step_writes_fresh : forall finv r m s sr,
@@ -120,6 +139,16 @@ Proof.
     split; [reflexivity|]. split; [reflexivity|]. vm_compute. reflexivity.
 Qed.
 
+(* non-vacuity: the example program above is such a bytecode, loaded at (0, 0) *)
+Example C16_program_example :
+  exists ws, prog_words [rp_i0; rp_i1; rp_i2] = Some ws /\ length ws = 5%nat /\ mem_has rp_m 0 0 ws
+  /\ map (prog_offset [rp_i0; rp_i1; rp_i2]) [0; 1; 2]%nat = [0; 2; 3].
+Proof.
+  eexists. split; [vm_compute; reflexivity|]. split; [reflexivity|]. split; [|reflexivity].
+  intros k w Hk. do 5 (destruct k as [|k]; [cbn in Hk; inversion Hk; subst w; vm_compute; reflexivity|]).
+  destruct k; discriminate.
+Qed.
+
 (* non-vacuity of the step theorem: `[ap + 0] = [fp + -3] + 5, ap++` from a state where the
    destination cell is unknown: the hypotheses are met, the VM deduces the cell and writes 42 *)
 Definition ex_i : instr :=
@@ -164,3 +193,4 @@ Print Assumptions C16_step_sound.
 Print Assumptions C16_run_sound.
 Print Assumptions C16_step_writes_fresh.
 Print Assumptions C16_step_commit_total.
+Print Assumptions C16_program_run_sound.
